@@ -268,6 +268,7 @@ def run(ctx):
     rule_pairs(eng, ctx)
     rule_construction(eng)
     rule_copies(eng)
+    rule_typed_labels(eng)
     rule_subscripts(eng)
     rule_subtractions(eng)
     rule_loops(eng)
@@ -1150,6 +1151,45 @@ def rule_copies(eng):
                                 ok = True
                     res.check(ok, "C02-R3", "%s:byte-read@%s" % (f.name.replace(NS, ""), (n.get("loc") or "").split(":", 1)[-1]), n.get("loc"),
                               "byte read inside the payload guarded by size() > offset", "byte read at a data-dependent offset of the payload without a size guard")
+
+
+def rule_typed_labels(eng):
+    """C02-R2 (labels): a TECMP payload that carries the type tag of a typed class (can, lin, …) is later viewed as that class by
+    the converter (reinterpret_cast of the Payload); its size/length invariants are established only by that class's
+    self-validating constructor.  So in decode-reachable code a TECMP::Payload is never built from raw (type, data, size) with a
+    typed tag: it is copied from an object of the typed class (whose isValid() was tested — R2)."""
+    fb, res = eng.fb, eng.res
+    en = fb.enums.get("TECMP::PayloadType::Type") or fb.enums.get("TECMP::PayloadType") or {}
+    typed_vals = {}
+    for cls in fb.derived_from("TECMP::Payload"):
+        for ctor in fb.fns(cls + "::" + cls.split("::")[-1]):
+            for i in ctor.raw.get("inits", []) or []:
+                for x in walk(i.get("e", {}) if isinstance(i.get("e"), dict) else {}):
+                    if x.get("k") == "ref" and x.get("dk") == "enumerator" and "PayloadType" in (x.get("decl") or "") and x.get("cv") is not None:
+                        typed_vals[x["cv"]] = cls
+    n = 0
+    for f in eng.fns:
+        for c in f.nodes():
+            if c.get("k") not in ("call", "construct"):
+                continue
+            g = fb.resolve_call(c)
+            if g is None or g.name != "TECMP::Payload::Payload" or len(g.params) != 3:
+                continue
+            args = facts.effective_call(c).get("args", [])
+            if len(args) != 3 or f.name.startswith("TECMP::Payload::") or (f.rec or "") in fb.derived_from("TECMP::Payload"):
+                continue  # the typed classes' own constructors delegate to it
+            n += 1
+            tv = None
+            for x in walk(args[0]):
+                if const_value(x) is not None and x.get("k") in ("ref", "lit", "cast"):
+                    tv = const_value(x)
+            cls = typed_vals.get(tv)
+            res.check(cls is None, "C02-R2", "%s:raw-typed-payload@%s" % (f.name.replace(NS, ""), (c.get("loc") or "").split(":", 1)[-1]), c.get("loc"),
+                      "generic payload built from raw bytes with an untyped tag",
+                      "%s builds a TECMP::Payload tagged %s directly from raw bytes: the converter views it as %s, whose header and length "
+                      "invariants only %s's validating constructor establishes — bytes beyond the buffer reach the converted packet" %
+                      (f.name, tv, cls, cls))
+    return n
 
 
 def rule_subscripts(eng):
